@@ -1058,7 +1058,7 @@ impl<'s> Gen<'s> {
             cs,
             set_params: true,
             setters: vec![],
-            pre_len: if term.is_collect_into() { r.range(0, 3) } else { 0 },
+            pre_len: if term.is_collect_into() { *[0usize, 1, 3, 10, 29, 31, 45, 60].get(r.below(8) as usize).unwrap_or(&3) } else { 0 },
             pre_spare: 0,
             ties: false,
             linear_k: 14,
